@@ -714,7 +714,7 @@ pub fn run(args: &Args) -> ! {
     rep.rule = format!(
         "file alphabet F ({nf} files): F1 = every single assignment of 6 scalar + 3 array settings × values × spelling (flat \"a.b\" / nested / mixed for 3-segment keys) ({n1} files), F2 = two assignments in one file (same section, every spelling mix; same setting twice in two spellings), F3 = {} wrong-typed section files; \
          tuple spaces: {}; every tuple is loaded by the real load_configs under all k! iteration orders of the flattened key map (seam {SITE}, k ≤ {MAX_PERM_K}), the canonical order twice; \
-         oracle per sentence of the statement: S1 identical serialized Emmyrc for all orders and repeats; S2 single file: every spelling equals the nested reference; S3 scalar = last setting file's value; S4 array = concatenation in file order without duplicates; S2–S4 against a reference load of the model's final values (undecided when the statement leaves the value open: wrong-typed file, in-file conflict). \
+         oracle per sentence of the statement: S1 identical serialized Emmyrc for all orders and repeats; S2 a single assignment loads to the same Emmyrc in every spelling; S3 scalar = last setting file's value; S4 array = concatenation in file order without duplicates; S2–S4 against a reference load of the model's final values (undecided when the statement leaves the value open: wrong-typed file, in-file conflict). \
          Supplementary, sampled (every {stride}th pair of the pair space): each (files, order) replayed in 2 fresh processes, and each sampled pair loaded in 2 fresh processes with the real hash order, which must fall within the enumerated observations. non-trivial = ≥2 flattened keys at the seam",
         RAW_FILES.len(),
         spaces.iter().map(|x| x.0.clone()).collect::<Vec<_>>().join("; "),
